@@ -15,7 +15,7 @@ PROPERTY = 'C13'
 LEVEL = 'exploration'
 RULE = ('cases = (join, tables, threshold pair, operator) on seeded random tables, mutation '
         'neighbourhoods for edit distance, the bundled person data and samples of the bundled books '
-        'data (thorough: large Zipf tables); each case runs the join transposed, at two thresholds and '
+        'data (thorough: 1200-row samples of books, 5000-row Zipf tables); each case runs the join transposed, at two thresholds and '
         'with the three operators. Non-trivial = the laxer join returns at least one pair that is '
         'neither both-empty nor missing; distinct = case seed.')
 ASSUMPTIONS = ['py_stringmatching tokenizers are trusted (used only to classify straddling pairs)']
@@ -43,12 +43,12 @@ def plan(tier, seed):
                        'combos': combos[i::3]})
     shards.append({'name': 'person', 'kind': 'data', 'data': 'person', 'n': 30 if tier == 'quick' else 200,
                    'seed': seed * 1000 + 232})
-    shards.append({'name': 'books_a', 'kind': 'data', 'data': 'books', 'rows': 400 if tier == 'quick' else 3100,
-                   'n': 5 if tier == 'quick' else 12, 'seed': seed * 1000 + 233})
-    shards.append({'name': 'books_b', 'kind': 'data', 'data': 'books', 'rows': 400 if tier == 'quick' else 3100,
-                   'n': 5 if tier == 'quick' else 12, 'seed': seed * 1000 + 234})
+    shards.append({'name': 'books_a', 'kind': 'data', 'data': 'books', 'rows': 400 if tier == 'quick' else 1200,
+                   'n': 5 if tier == 'quick' else 10, 'seed': seed * 1000 + 233})
+    shards.append({'name': 'books_b', 'kind': 'data', 'data': 'books', 'rows': 400 if tier == 'quick' else 1200,
+                   'n': 5 if tier == 'quick' else 10, 'seed': seed * 1000 + 234})
     if tier == 'thorough':
-        shards.append({'name': 'zipf', 'kind': 'data', 'data': 'zipf', 'rows': 8000, 'n': 6,
+        shards.append({'name': 'zipf', 'kind': 'data', 'data': 'zipf', 'rows': 5000, 'n': 6,
                        'seed': seed * 1000 + 235})
     return shards
 
